@@ -81,7 +81,7 @@ func scenario(c cfg, mk func() transport) *mcx.Scenario {
 				n = c.K + 1
 			}
 			callers := make([]*caller, n)
-			nonceOf := map[string]int{} // body -> request index it was generated for
+			nonceOf := map[string]int{}    // body -> request index it was generated for
 			dupType := map[string]string{} // body -> type of the response datagram that was delivered a second time
 			vrt.App("peer", func() {
 				tr.Build(c.BlockWise)
